@@ -946,4 +946,272 @@ theorem step_used {M : Type} (cfg : Cfg) (pathOk : Str → Bool) (gen : Gen M) (
       refine ⟨h1, ?_⟩
       rw [h2]; rfl
 
+theorem inside_absNorm {base p : Str} (hb : AbsNorm base) (h : Inside base p) : AbsNorm p := by
+  rcases h with rfl | ⟨n, hn, rfl⟩
+  · exact hb
+  · obtain ⟨k, cs, hk, hcs, rfl⟩ := hb
+    rw [(pjoin_base k hk cs hcs n hn.2.2.2).2]
+    refine ⟨k, cs ++ [n], hk, ?_, rfl⟩
+    intro c hc
+    rcases List.mem_append.1 hc with h | h
+    · exact hcs c h
+    · simp at h; subst h; exact hn
+
+/-! ### monotonicity of the search, cache keys -/
+
+theorem matchAt_mono (a : Alt) (s x : Str) (h : a.matchAt s = true) : a.matchAt (s ++ x) = true := by
+  cases a with
+  | cls cs =>
+    cases s with
+    | nil => simp [Alt.matchAt] at h
+    | cons c r => simpa [Alt.matchAt] using h
+  | lit l =>
+    simp only [Alt.matchAt] at h ⊢
+    obtain ⟨t, ht⟩ := List.isPrefixOf_iff_prefix.1 h
+    exact List.isPrefixOf_iff_prefix.2 ⟨t ++ x, by rw [← ht]; simp⟩
+
+theorem search_iff (rx : List Alt) (s : Str) :
+    search rx s = true ↔ ∃ a ∈ rx, ∃ pre suf, s = pre ++ suf ∧ a.matchAt suf = true := by
+  constructor
+  · intro h
+    induction s with
+    | nil =>
+      simp only [search, List.any_eq_true] at h
+      obtain ⟨a, ha, hm⟩ := h
+      exact ⟨a, ha, [], [], rfl, hm⟩
+    | cons c cs ih =>
+      simp only [search, Bool.or_eq_true, List.any_eq_true] at h
+      rcases h with ⟨a, ha, hm⟩ | h
+      · exact ⟨a, ha, [], c :: cs, rfl, hm⟩
+      · obtain ⟨a, ha, pre, suf, e, hm⟩ := ih h
+        exact ⟨a, ha, c :: pre, suf, by rw [e]; rfl, hm⟩
+  · rintro ⟨a, ha, pre, suf, rfl, hm⟩
+    exact search_of_suffix_match rx a ha pre suf hm
+
+/-- `re.search` is monotone under taking a superstring. -/
+theorem search_infix_mono (rx : List Alt) (a b : Str) (hab : a <:+: b) (h : search rx a = true) : search rx b = true := by
+  obtain ⟨p, q, rfl⟩ := hab
+  obtain ⟨alt, halt, pre, suf, rfl, hm⟩ := (search_iff rx a).1 h
+  have : p ++ (pre ++ suf) ++ q = (p ++ pre) ++ (suf ++ q) := by simp
+  rw [this]
+  exact search_of_suffix_match rx alt halt (p ++ pre) (suf ++ q) (matchAt_mono alt suf q hm)
+
+theorem mem_infix_joinSep (sep : Str) (ids : List Str) (id : Str) (h : id ∈ ids) : id <:+: joinSep sep ids := by
+  induction ids with
+  | nil => simp at h
+  | cons a rest ih =>
+    cases rest with
+    | nil => simp at h; subst h; simp [joinSep]
+    | cons b r =>
+      rw [joinSep]
+      rcases List.mem_cons.1 h with rfl | hm
+      · exact ⟨[], sep ++ joinSep sep (b :: r), by simp⟩
+      · obtain ⟨p, q, e⟩ := ih hm
+        exact ⟨a ++ sep ++ p, q, by rw [← e]; simp⟩
+        
+
+/-! ### cache keys of validated id lists are never matched by the regex -/
+
+/-- the separator character `d` occurs in no class and in no literal of `rx`. -/
+def sepFreeB (rx : List Alt) (d : Char) : Bool :=
+  rx.all fun a => match a with
+    | .cls cs => !cs.contains d
+    | .lit l => !l.contains d
+
+theorem prefix_of_sep {l t y : Str} {d : Char} (hd : d ∉ l) (h : l <+: t ++ d :: y) : l <+: t := by
+  induction l generalizing t with
+  | nil => exact List.nil_prefix
+  | cons c l' ih =>
+    cases t with
+    | nil =>
+      simp at h
+      exact absurd h.1 (fun e => hd (by simp [e]))
+    | cons c' t' =>
+      simp only [List.cons_append, List.cons_prefix_cons] at h
+      obtain ⟨rfl, h'⟩ := h
+      have := ih (fun m => hd (List.mem_cons_of_mem _ m)) h'
+      exact List.cons_prefix_cons.2 ⟨rfl, this⟩
+
+theorem search_split (rx : List Alt) (d : Char) (hf : sepFreeB rx d = true) (x y : Str)
+    (h : search rx (x ++ d :: y) = true) : search rx x = true ∨ search rx y = true := by
+  obtain ⟨alt, halt, pre, suf, e, hm⟩ := (search_iff rx _).1 h
+  have hfa := List.all_eq_true.1 hf alt halt
+  rcases List.append_eq_append_iff.1 e with ⟨t, rfl, e2⟩ | ⟨t, rfl, e2⟩
+  · -- pre = x ++ t, d :: y = t ++ suf
+    cases t with
+    | nil =>
+      simp at e2
+      subst e2
+      cases alt with
+      | cls cs =>
+        simp [Alt.matchAt] at hm
+        simp at hfa
+        exact absurd hm hfa
+      | lit l =>
+        simp only [Alt.matchAt] at hm
+        have hp := List.isPrefixOf_iff_prefix.1 hm
+        simp at hfa
+        cases l with
+        | nil => left; exact search_of_suffix_match rx _ halt x [] (by simp [Alt.matchAt]) |> (by simpa using ·)
+        | cons c l' =>
+          simp only [List.cons_prefix_cons] at hp
+          exact absurd hp.1 (fun e => hfa (by simp [e]))
+    | cons c t' =>
+      simp only [List.cons_append, List.cons.injEq] at e2
+      obtain ⟨_, rfl⟩ := e2
+      right
+      exact search_of_suffix_match rx _ halt t' suf hm
+  · -- x = pre ++ t, suf = t ++ d :: y
+    subst e2
+    left
+    cases alt with
+    | cls cs =>
+      cases t with
+      | nil =>
+        simp [Alt.matchAt] at hm
+        simp at hfa
+        exact absurd hm hfa
+      | cons c t' =>
+        exact search_of_suffix_match rx _ halt pre (c :: t') (by simpa [Alt.matchAt] using hm)
+    | lit l =>
+      simp only [Alt.matchAt] at hm
+      have hp := List.isPrefixOf_iff_prefix.1 hm
+      simp at hfa
+      have := prefix_of_sep hfa hp
+      exact search_of_suffix_match rx _ halt pre t (by simpa [Alt.matchAt] using List.isPrefixOf_iff_prefix.2 this)
+
+theorem search_joinSep (rx : List Alt) (d : Char) (hf : sepFreeB rx d = true) (ids : List Str)
+    (h : search rx (joinSep [d] ids) = true) (hne : ids ≠ []) : ∃ id ∈ ids, search rx id = true := by
+  induction ids with
+  | nil => exact absurd rfl hne
+  | cons a rest ih =>
+    cases rest with
+    | nil => exact ⟨a, by simp, by simpa [joinSep] using h⟩
+    | cons b r =>
+      rw [joinSep_cons_cons] at h
+      have e : a ++ [d] ++ joinSep [d] (b :: r) = a ++ d :: joinSep [d] (b :: r) := by simp
+      rw [e] at h
+      rcases search_split rx d hf _ _ h with h1 | h2
+      · exact ⟨a, by simp, h1⟩
+      · obtain ⟨id, hid, hs⟩ := ih h2 (by simp)
+        exact ⟨id, List.mem_cons_of_mem _ hid, hs⟩
+
+/-- fact about the generated data: the key separator is one character that the regex never mentions. -/
+theorem keySep_sepFree : ∃ d, keySep = [d] ∧ sepFreeB rejectRx d = true := by
+  have h : (match keySep with | [d] => sepFreeB rejectRx d | _ => false) = true := by decide
+  cases hk : keySep with
+  | nil => rw [hk] at h; simp at h
+  | cons d r =>
+    cases r with
+    | nil => rw [hk] at h; exact ⟨d, rfl, h⟩
+    | cons _ _ => rw [hk] at h; simp at h
+
+/-- a non-empty list of ids that all pass the regex has a cache key that passes the regex, and
+    conversely a list with a matching id has a matching key: rejected and accepted lists never share a key. -/
+theorem cacheKey_good (ids : List Str) (hne : ids ≠ []) (h : ∀ id ∈ ids, bad id = false) : bad (cacheKey ids) = false := by
+  obtain ⟨d, hd, hf⟩ := keySep_sepFree
+  cases hb : bad (cacheKey ids) with
+  | false => rfl
+  | true =>
+    unfold bad cacheKey at hb
+    rw [hd] at hb
+    obtain ⟨id, hid, hs⟩ := search_joinSep rejectRx d hf ids hb hne
+    have := h id hid
+    unfold bad at this
+    rw [this] at hs
+    exact Bool.noConfusion hs
+
+theorem cacheKey_bad (ids : List Str) (id : Str) (hid : id ∈ ids) (h : bad id = true) : bad (cacheKey ids) = true :=
+  search_infix_mono rejectRx id _ (mem_infix_joinSep keySep ids id hid) h
+
+def KeysGood (cache : Cache) : Prop := ∀ kp ∈ cache, bad kp.1 = false
+
+theorem lookup_keysGood (cache : Cache) (hk : KeysGood cache) (key : Str) (hb : bad key = true) : lookup key cache = none := by
+  cases h : lookup key cache with
+  | none => rfl
+  | some v =>
+    have := hk _ (lookup_mem key cache v h)
+    simp at this
+    rw [this] at hb
+    exact Bool.noConfusion hb
+
+theorem getRails_keysGood (cfg : Cfg) (hs : cfg.single = none) (pathOk : Str → Bool) (cache : Cache) (ids : List Str)
+    (hne : ids ≠ []) (hk : KeysGood cache) : KeysGood (getRails cfg pathOk cache ids).cache := by
+  unfold getRails
+  cases hl : lookup (cacheKey ids) cache with
+  | some paths => exact hk
+  | none =>
+    simp only [loadFresh, effectiveIds, hs]
+    cases hr : (loadAll cfg.base pathOk ids).2 with
+    | error e => exact hk
+    | ok u =>
+      intro kp hkp
+      rcases List.mem_cons.1 hkp with rfl | hm
+      · exact cacheKey_good ids hne (loadAll_ok_all_good pathOk ids hr)
+      · exact hk kp hm
+
+/-- multi-config mode, valid cache: a request naming an id the regex matches is refused, whatever is cached. -/
+theorem getRails_bad (cfg : Cfg) (hs : cfg.single = none) (pathOk : Str → Bool) (cache : Cache) (ids : List Str)
+    (hk : KeysGood cache) (hbad : ∃ id ∈ ids, bad id = true) :
+    (∃ e, (getRails cfg pathOk cache ids).res = .error e) ∧ (getRails cfg pathOk cache ids).cache = cache := by
+  obtain ⟨id, hid, hb⟩ := hbad
+  have hmiss := lookup_keysGood cache hk _ (cacheKey_bad ids id hid hb)
+  unfold getRails
+  rw [hmiss]
+  simp only [loadFresh, effectiveIds, hs]
+  cases hr : (loadAll cfg.base pathOk ids).2 with
+  | error e => exact ⟨⟨e, rfl⟩, rfl⟩
+  | ok u =>
+    have := loadAll_ok_all_good pathOk ids hr id hid
+    rw [this] at hb
+    exact Bool.noConfusion hb
+
+theorem resolveIds_ne_nil (cfg : Cfg) (x : Option (List Str)) (ids : List Str) (h : resolveIds cfg x = some ids) : ids ≠ [] := by
+  unfold resolveIds at h
+  split at h
+  · simp at h; rw [← h]; simp
+  · split at h
+    · split at h
+      · simp at h
+      · simp at h; rw [← h]; simp
+    · simp at h
+
+theorem step_keysGood {M : Type} (cfg : Cfg) (hs : cfg.single = none) (pathOk : Str → Bool) (gen : Gen M)
+    (s : State M) (r : Req M) (hk : KeysGood s.cache) : KeysGood (step cfg pathOk gen s r).2.cache := by
+  unfold step
+  cases hv : validate r with
+  | none => exact hk
+  | some ids? =>
+    simp only
+    cases hr : resolveIds cfg ids? with
+    | none => exact hk
+    | some ids =>
+      simp only
+      have hg := getRails_keysGood cfg hs pathOk s.cache ids (resolveIds_ne_nil cfg ids? ids hr) hk
+      unfold afterRails
+      cases hres : (getRails cfg pathOk s.cache ids).res with
+      | error e => exact hg
+      | ok ks =>
+        obtain ⟨key, served⟩ := ks
+        simp only
+        rw [(finishTurn_frame cfg gen _ r served).1]
+        exact hg
+
+theorem run_keysGood {M : Type} (cfg : Cfg) (hs : cfg.single = none) (pathOk : Str → Bool) (gen : Gen M)
+    (reqs : List (Req M)) (s : State M) (hk : KeysGood s.cache) : KeysGood (run cfg pathOk gen s reqs).2.cache := by
+  induction reqs generalizing s with
+  | nil => exact hk
+  | cons r rs ih => simp only [run]; exact ih _ (step_keysGood cfg hs pathOk gen s r hk)
+
+theorem step_bad {M : Type} (cfg : Cfg) (hs : cfg.single = none) (pathOk : Str → Bool) (gen : Gen M)
+    (s : State M) (r : Req M) (hk : KeysGood s.cache) (ids? : Option (List Str)) (ids : List Str)
+    (hv : validate r = some ids?) (hr : resolveIds cfg ids? = some ids) (hbad : ∃ id ∈ ids, bad id = true) :
+    (step cfg pathOk gen s r).1 = .couldNotLoad ids ∧ (step cfg pathOk gen s r).2.cache = s.cache ∧
+    (step cfg pathOk gen s r).2.store = s.store := by
+  obtain ⟨⟨e, he⟩, hc⟩ := getRails_bad cfg hs pathOk s.cache ids hk hbad
+  refine ⟨by simp [step, hv, hr, afterRails, he], ?_, ?_⟩
+  · simp [step, hv, hr, afterRails, he, State.withRails, State.tick, hc]
+  · simp [step, hv, hr, afterRails, he, State.withRails, State.tick]
+
+
 end NemoVerif.Server
